@@ -138,6 +138,31 @@ func runC19(r *Run) {
 			}
 		}
 		r.Floor("R1", "GenesisState fields of "+gm.Name, len(fields), 1)
+		// scalar parts of the genesis document are imported unconditionally: a call in InitGenesis (outside any loop)
+		// whose argument derives from a GenesisState field must lie on every path to a normal return
+		eachCall(initF, func(ci CallInfo) {
+			if ci.Static == nil && !ci.Invoke {
+				return
+			}
+			if innermostLoop(ci.Instr.Block()) != nil {
+				return
+			}
+			fld := ""
+			for _, a := range ci.Instr.Common().Args {
+				if _, f, ok := directGenesisField(a, typesPkg); ok {
+					fld = f
+				}
+			}
+			if fld == "" || !(strings.HasPrefix(ci.Name, "Set") || strings.HasPrefix(ci.Name, "Init") || strings.HasPrefix(ci.Name, "init")) {
+				return
+			}
+			call := ci.Instr
+			w := PathQuery{Fn: initF, Block: func(in ssa.Instruction) bool { return in == ssa.Instruction(call) }, Target: func(in ssa.Instruction) bool {
+				_, ok := in.(*ssa.Return)
+				return ok && in.Block() != initF.Recover
+			}}.Search()
+			r.Check(w == nil, "R1", fmt.Sprintf("x/%s#import-unconditional/%s(%s)", gm.Name, ci.Name, fld), P.Pos(instrPos(call)), "on every path of InitGenesis", "InitGenesis can return without "+ci.Name+"(genesis."+fld+"): that part of the exported state is silently not restored for some documents", P.witness(w)...)
+		})
 
 		// ---- R2 ----
 		tpkg := P.PkgBy[haqqMod+"/"+typesPkg]
@@ -257,6 +282,38 @@ func runC19(r *Run) {
 		r.Count("R2 runtime-written prefixes of "+gm.Name, nP)
 	}
 
+	// evm export completeness: every exported account carries its code and storage
+	if ex, ok := P.FnOK("x/evm.ExportGenesis"); ok {
+		n := 0
+		for _, f := range withAnon(ex) {
+			eachInstr(f, func(in ssa.Instruction) {
+				st, ok := in.(*ssa.Store)
+				if !ok {
+					return
+				}
+				sn, fld, ok := fieldOfAddr(st.Addr)
+				if !ok || sn != "GenesisAccount" {
+					return
+				}
+				want := map[string]string{"Code": "GetCode", "Storage": "GetAccountStorage", "Address": "EthAddress"}[fld]
+				if want == "" {
+					return
+				}
+				n++
+				v := stripValue(st.Val)
+				direct := false
+				if c, ok := v.(*ssa.Call); ok {
+					direct = callInfo(c).Name == want || backSlice(c).HasCall(func(g CallInfo) bool { return g.Name == want })
+				}
+				// unconditional: the store must not be guarded (its block dominates the append / closure return)
+				uncond := dominates(st.Block(), lastBlockOf(f)) || len(f.Blocks) == 1 || storeReachesAllReturnsAfterAssert(f, st)
+				r.Check(direct && uncond, "R1", fmt.Sprintf("x/evm.ExportGenesis#account-%s", fld), P.Pos(instrPos(in)), "GenesisAccount."+fld+" ← "+want+"(…) for every exported account",
+					"an exported EVM account's "+fld+" is not unconditionally taken from "+want+": accounts in unusual states (e.g. storage without code) would lose state in the export")
+			})
+		}
+		r.Floor("R1", "GenesisAccount field stores in evm ExportGenesis", n, 3)
+	}
+
 	// ---------- R3 ----------
 	if ex, ok := P.FnOK("(*app.Haqq).ExportAppStateAndValidators"); ok {
 		okE := false
@@ -284,4 +341,47 @@ func isRuntimeReach(sc *Scopes, fn *ssa.Function, initF *ssa.Function) bool {
 		}
 	}
 	return true
+}
+
+// directGenesisField: v is (a load of) a field of the module's GenesisState, possibly a sub-field.
+func directGenesisField(v ssa.Value, typesPkg string) (string, string, bool) {
+	found, fld := false, ""
+	backSlice(v).Any(func(x ssa.Value) bool {
+		if fa, ok := x.(*ssa.FieldAddr); ok {
+			if sn, f, ok := fieldOfAddr(fa); ok && sn == "GenesisState" && pathHasSuffix(namedPkgPath(fa.X.Type()), typesPkg) {
+				found, fld = true, f
+			}
+		}
+		if fv, ok := x.(*ssa.Field); ok {
+			if sn, f, ok := fieldOfValue(fv); ok && sn == "GenesisState" && pathHasSuffix(namedPkgPath(fv.X.Type()), typesPkg) {
+				found, fld = true, f
+			}
+		}
+		return false
+	})
+	return "GenesisState", fld, found
+}
+
+func lastBlockOf(f *ssa.Function) *ssa.BasicBlock {
+	for i := len(f.Blocks) - 1; i >= 0; i-- {
+		if _, ok := f.Blocks[i].Instrs[len(f.Blocks[i].Instrs)-1].(*ssa.Return); ok && f.Blocks[i] != f.Recover {
+			return f.Blocks[i]
+		}
+	}
+	return f.Blocks[len(f.Blocks)-1]
+}
+
+// storeReachesAllReturnsAfterAssert: every path from the block of st to a return that appends an account passes
+// through the store's block — approximated by: no path from the function entry reaches an `append` without the store.
+func storeReachesAllReturnsAfterAssert(f *ssa.Function, st *ssa.Store) bool {
+	isAppend := func(in ssa.Instruction) bool {
+		c, ok := in.(*ssa.Call)
+		if !ok {
+			return false
+		}
+		b, ok := c.Call.Value.(*ssa.Builtin)
+		return ok && b.Name() == "append"
+	}
+	w := PathQuery{Fn: f, Block: func(in ssa.Instruction) bool { return in == ssa.Instruction(st) }, Target: isAppend}.Search()
+	return w == nil
 }
